@@ -121,7 +121,19 @@ def run_c04(rep, tier, seed):
     os.makedirs(wd, exist_ok=True)
     with open(os.path.join(wd, "cases.json"), "w") as f:
         json.dump({"keys": keys, "lists": lists}, f)
-    res = common.run_tlc("HilbertSound", "HilbertSound.cfg", env={"HCASES": os.path.join(wd, "cases.json"), "HOUT": os.path.join(wd, "answers.json")},
+    os.makedirs(os.path.join(common.WORK, "cfg"), exist_ok=True)
+
+    def hs_cfg(lm, sample):
+        path = os.path.join(common.WORK, "cfg", f"HilbertSound-{lm}-{sample}.cfg")
+        with open(path, "w") as f:
+            f.write(open(os.path.join(common.TLA, "cfg", "HilbertSound.cfg")).read() + f"CONSTANTS LM = {lm}  Sample = {sample}\n")
+        return path
+    if tier == "thorough":
+        with open(os.path.join(wd, "none.json"), "w") as f:
+            json.dump({"keys": [], "lists": []}, f)
+        res4 = common.run_tlc("HilbertSound", hs_cfg(4, 4000), env={"HCASES": os.path.join(wd, "none.json"), "HOUT": os.path.join(wd, "none-out.json")}, workers=16, timeout=3000, seed=seed + 1)
+        rep.tlc(res4, "HilbertSound LM=4: 4000 random boxes x 4681 leaves")
+    res = common.run_tlc("HilbertSound", hs_cfg(3, 0), env={"HCASES": os.path.join(wd, "cases.json"), "HOUT": os.path.join(wd, "answers.json")},
                          workers=16, timeout=3000)
     rep.tlc(res, "HilbertSound LM=3: all 46656 boxes x 585 leaves; lemmas StatePermutes, Bijective(3), Prefix(3), Continuous(2)")
     ans = json.load(open(os.path.join(wd, "answers.json")))
